@@ -170,4 +170,17 @@ def cases():
     cca = dict(RULES[0], always=True)
     out.append((base([{"name": "lib", "sources": ["lib.c"]}], [{"name": "a1", "sources": ["main.c"], "selects": ["lib"]}, {"name": "a2", "sources": ["m2.c"], "selects": ["lib"]}],
                      contexts=[{"name": "c0", "rules": [cca]}], builders=[{"name": "b0", "parent": "c0"}, {"name": "b1"}]), {}))
+    # 28: rule/task export: entries: a plain name exports the variable's recursively expanded value; escapes stay literal
+    rules = [dict(RULES[0], export=["TOOLCHAIN_DIR", "LINKER_SCRIPT", {"EXPR": "$(1+2)-${SDK_ROOT}"}]), RULES[1]]
+    f = base([], [{"name": "app", "sources": ["main.c"]}])
+    f["laze-project.yml"][0]["contexts"][0]["rules"] = rules
+    f["laze-project.yml"][0]["contexts"][0]["env"].update({"SDK_ROOT": "/opt/sdk", "TOOLCHAIN_DIR": "${SDK_ROOT}/toolchain", "LINKER_SCRIPT": "\\${HOME}/ld/${builder}.ld"})
+    f["laze-project.yml"][0]["contexts"][0]["tasks"] = {"show": {"cmd": ["echo ${TOOLCHAIN_DIR}"], "export": ["TOOLCHAIN_DIR", {"LD": "${LINKER_SCRIPT}"}]}}
+    out.append((f, {}))
+    # 29: a module whose srcdir lies inside a top-level module's download directory, written without the "./" that the
+    #     stored directory carries (build/dl/./ext): containment is by path component
+    mods = [{"name": "ext", "download": git, "sources": ["ext.c"]},
+            {"name": "ext_core", "srcdir": "${build-dir}/dl/ext/src/core", "sources": ["core.c", "sched.c"], "depends": ["ext"]},
+            {"name": "ext_same", "srcdir": "build/dl/ext", "sources": ["same.c"], "depends": ["ext"]}]
+    out.append((dlbase(mods, [{"name": "app", "sources": ["main.c"], "depends": ["ext_core", "ext_same"]}]), {}))
     return out
